@@ -452,8 +452,19 @@ def evaluate(text, flags, keep=False):
         r = subprocess.run([build.CLANGXX, "-std=c++11", "-fsyntax-only",
                             "-w"] + mcflags + ["-I" + gen_dir, cxx], stdout=subprocess.PIPE, stderr=subprocess.STDOUT)
         if r.returncode != 0:
-            co = r.stdout.decode(errors="replace")
-            return "cxx:" + _norm(_first_error(co)), "the emitted headers do not parse as C++:\n%s" % co[:1500], info
+            # all headers in one translation unit failed: the statement asks for C++-compatible headers, not for
+            # clash-free names across unrelated types, so the verdict is taken header by header
+            info["cxx_all_in_one_failed"] = 1
+            for hname in hdrs:
+                if hname in skel_names:
+                    continue
+                with open(cxx, "w") as f:
+                    f.write('#include "%s"\nint main() { return 0; }\n' % hname)
+                r = subprocess.run([build.CLANGXX, "-std=c++11", "-fsyntax-only", "-w"] + mcflags + ["-I" + gen_dir, cxx],
+                                   stdout=subprocess.PIPE, stderr=subprocess.STDOUT)
+                if r.returncode != 0:
+                    co = r.stdout.decode(errors="replace")
+                    return "cxx:" + _norm(_first_error(co)), "%s does not parse as C++:\n%s" % (hname, co[:1500]), info
         return None, "accepted; %d files build and link; %d descriptors consistent; headers parse as C++" % (
             len(srcs), info["descriptors"]), info
     finally:
@@ -617,7 +628,7 @@ K_HUGE = "number-beyond-64-bits.emitted-literally"
 
 
 def _huge_literal(text):
-    for m in re.finditer(r"(?<![\w.])-?\d{19,}", re.sub(r"--.*", "", text)):
+    for m in re.finditer(r"(?<![\w])-?\d{19,}", re.sub(r"--.*", "", text)):
         v = int(m.group(0))
         if v > (1 << 64) - 1 or v < -(1 << 63):
             return True
@@ -685,6 +696,7 @@ def worker(cases, budget_min):
         acc.case(h(case["text"], case["flags"]) if nt else None, cls)
         acc.extra["files_compiled"] += info.get("files", 0)
         acc.extra["descriptors_checked"] += info.get("descriptors", 0)
+        acc.extra["cxx_name_clash_across_headers(no verdict)"] += info.get("cxx_all_in_one_failed", 0)
         if nt and sig is None:
             acc.sample({"options": case["flags"], "classes": [c for c in case["classes"]], "result": detail,
                         "text_head": case["text"][:300]}, limit=5)
@@ -760,7 +772,7 @@ def main(argv):
     runner.confirm(chk, replay_case)
     chk.extra_coverage["confirm_s"] = round(time.time() - t1, 1)
     _prune_cache()
-    return chk.finish(min_evaluations=int(n * 0.9), min_nontrivial=n // 3)
+    return chk.finish(min_evaluations=int(n * 0.75), min_nontrivial=n // 3)
 
 
 def slice_worker(seed, n, budget_min):
